@@ -19,10 +19,10 @@ def run(ctx):
     RP.unsigned_subtractions(ctx, "R01.f")
     # debug assertions of the checked build are obligations too
     RH.new_pair_guards(ctx, "R01.g")
-    RK.renumber_after_mutation(ctx, "R01.g")
+    RK.renumber_after_mutation(ctx, "R01.g", floor=1)
     RT.only_store_add_feeds_index(ctx, "R01.g")
     RT.generator_sorted_dedup(ctx, "R01.g")
-    RS.consistency_group(ctx, "R01.g")
+    RS.consistency_group(ctx, "R01.g", include_memo=False, frame=False)
     # unchecked accesses abort in a checked build (debug preconditions) and are UB otherwise
     R19.discharge_sites(ctx)
     return info("R01.a: lock-order style RefCell analysis over the whole call graph — no call executed while a guard is live can "
